@@ -201,6 +201,9 @@ class Model:
     def allowed(self, kind, cycle):
         if kind == "init":
             return self.phase == "I"
+        if kind == "pkl":
+            # a checkpoint / resume may happen between any two operations
+            return self.phase != "I"
         if self.phase == "I" or self.finalised:
             return False
         has_live = (not self.live_none) and "L" in self.status
@@ -305,6 +308,8 @@ class Model:
                 self.nontrivial = True
             self.phase = "A"
             return n
+        if kind == "pkl":
+            return None
         if kind == "fin":
             self.status = ["N"] * len(self.status)
             self.live_none = True
@@ -446,6 +451,26 @@ class Harness:
         elif kind == "fin":
             m.apply(["fin"])
             self._call("fin", s.finalise)
+        elif kind == "pkl":
+            # what a checkpoint followed by a resume does to the store: a
+            # pickle round trip; without a saved density table the sampler
+            # recomputes it for the stored samples, in their stored order
+            import pickle
+
+            keep = bool(op[1]) if len(op) > 1 else False
+            m.apply(["pkl"])
+            s.save_log_q = keep
+            s2 = self._call("pkl", lambda: pickle.loads(pickle.dumps(s)))
+            if not keep or getattr(s2, "log_q", None) is None:
+                try:
+                    uid2 = s2.samples["uid"].astype(int)
+                    s2.log_q = log_q_for(uid2, m.ncol)
+                except Exception as e:
+                    raise Violation(
+                        "pkl:store-unusable-after-restore",
+                        f"{type(e).__name__}: {e}", self.case())
+            self.store = s = s2
+            labels.append("pkl:keep-table" if keep else "pkl:rederive-table")
         else:
             raise HarnessError(f"unknown op {op!r}")
         if situation:
@@ -715,6 +740,15 @@ def _dfs(h, depth_left, cfg, acc, sid):
             acc.violation(v, sid)
             continue
         acc.node(c, labels, sid)
+        if op[0] in ("add", "rem"):
+            # probe (not a branch of the enumeration): the store as it is
+            # now survives a checkpoint / resume
+            p = c.clone()
+            try:
+                p.apply(["pkl", False])
+                acc.classes["pkl-probe"] += 1
+            except Violation as v:
+                acc.violation(v, sid)
         _dfs(c, depth_left - 1, cfg, acc, sid)
 
 
@@ -937,6 +971,13 @@ def make_machine(stats, ctx, allow_foreign):
         def remove(self):
             self._do(["rem"])
 
+        @precondition(lambda self: self.h is not None and not self.dead
+                      and self.h.model.phase != "I")
+        @rule(keep=st.booleans(), go=st.integers(0, 3))
+        def checkpoint_resume(self, keep, go):
+            if go == 0:
+                self._do(["pkl", keep])
+
         @precondition(lambda self: self._ok("fin"))
         @rule(go=st.integers(0, 11))
         def finalise(self, go):
@@ -976,7 +1017,8 @@ def make_machine(stats, ctx, allow_foreign):
             for k in ("batch>=100", "batch-has--inf", "add:ties-stored-value",
                       "add:below-lowest-nested", "add:below-threshold",
                       "add:equal-threshold", "add:after-replace-all",
-                      "rem:zero", "rem:some", "rem:all-live", "fin"):
+                      "rem:zero", "rem:some", "rem:all-live", "fin",
+                      "pkl:keep-table", "pkl:rederive-table"):
                 if self.labels.get(k):
                     cl.append("machine:" + k)
             if m.finalised:
